@@ -25,9 +25,3 @@ Proof.
   repeat match goal with H : _ \/ _ |- _ => destruct H as [<- | H] end; tauto.
 Qed.
 Print Assumptions C17_inventory.
-
-(* in the model: the run of a connection depends on nothing but its own arguments *)
-Theorem C17_fresh_state : forall cf app keys wf zt ct cn steps prev_keys prev_wf prev_zt prev_ct prev_cn prev_steps,
-  let previous := run cf app (init prev_keys prev_wf prev_zt prev_ct) prev_cn prev_steps in
-  run cf app (init keys wf zt ct) cn steps = run cf app (init keys wf zt ct) cn steps.
-Proof. reflexivity. Qed.
